@@ -156,7 +156,14 @@ class TreeGen:
                 if r.random() < 0.3:
                     self.kinds.add("breakif-public-condition")
                     brk = (brk[0], "%s == %d" % (kname, r.randint(1, 2)))
-            return ("while", self.cond(vars_), body, r.randint(1, 3), kname, brk)
+            wcond = self.cond(vars_)
+            if r.random() < 0.15:
+                # `while True` with a secret break condition: the loop is opened by a public condition
+                self.kinds.add("public-loop-condition-secret-break")
+                wcond = "True"
+                if brk is None or not brk[1].count("{"):
+                    brk = (r.randint(0, len(body)), self.cond(vars_))
+            return ("while", wcond, body, r.randint(1, 3), kname, brk)
         self.kinds.add("for")
         self.nk += 1
         iname = "i%d" % self.nk
@@ -174,6 +181,12 @@ class TreeGen:
         start = r.choice([None, None, 0, 1, 2])
         if start is not None:
             self.kinds.add("range-with-start")
+        if r.random() < 0.15:
+            # a public bound (an ordinary range) with a secret break condition
+            self.kinds.add("public-loop-bound-secret-break")
+            if brk is None or not brk[1].count("{"):
+                brk = (r.randint(0, len(body)), self.cond(vars_))
+            return ("for", "@pub", r.randint(1, 3) + (start or 0), body, iname, False, r.random() < 0.5, brk, start)
         return ("for", r.choice(vars_), r.randint(1, 3) + (start or 0), body, iname, chk, r.random() < 0.5, brk, start)
 
     def program(self):
@@ -269,7 +282,13 @@ def render(tree, api):
                     emit(ind, "_endwhile(ctx=_)")
             elif k == "for":
                 _, sv, mx, body, iv, chk, use_i, fbrk, start = st
-                if api:
+                if sv == "@pub":
+                    if api:
+                        emit(ind, "for %s in _range(%s%d, ctx=_):" % (iv, "" if start is None else "%d, " % start, mx))
+                    else:
+                        emit(ind, "_brk%s = False" % iv)
+                        emit(ind, "for %s in range(%d, %d):" % (iv, start or 0, mx))
+                elif api:
                     emit(ind, "for %s in _range(%s_.%s, max=%d, ctx=_%s):" % (iv, "" if start is None else "%d, " % start, sv, mx, ", checkstopmax=True" if chk else ""))
                 else:
                     emit(ind, "if %s < %d: NEG.append(%s)" % (sv, start or 0, sv))
@@ -507,6 +526,8 @@ def branch_signature(tns):
 
 
 def classify_raise(exc, src):
+    if isinstance(exc, RuntimeError) and "Wrong type for if_then_else condition" in str(exc) and ("_while(True" in src or "_range(" in src):
+        return "api-raised:RuntimeError:public-loop-secret-break"
     if isinstance(exc, AttributeError) and "lineno" in str(exc):
         return "while-inside-for-crashes"
     return "api-raised:" + type(exc).__name__
